@@ -8,15 +8,16 @@
    Oper  = what the generator's patterns do.  Constant-level.                                               *)
 EXTENDS Naturals, Sequences, FiniteSets, TLC
 UFields == <<"A", "N", "P", "L">>
-AllUFields == {"A", "N", "P", "L", "M", "NM"}
-MFields == <<"M", "NM">>
+\* PH: a pointer to a named struct whose target type differs (PH *UH -> *UHO): converted by a call of a generated helper, like NM
+AllUFields == {"A", "N", "P", "L", "M", "NM", "PH"}
+MFields == <<"M", "NM", "PH">>
 KindOf == [f \in AllUFields |-> CASE f = "A" -> "basic" [] f = "N" -> "struct" [] OTHER -> "nillable"]
 UProgs == {p \in [basic : BOOLEAN, struct : BOOLEAN, nillable : BOOLEAN, skip : BOOLEAN, srcPtr : BOOLEAN, ignoreA : BOOLEAN, retErr : BOOLEAN, comb : BOOLEAN] :
              p.comb => (p.basic /\ p.struct /\ p.nillable)}
 \* a fifth target field LS []string fed by `map L LS | ToS` (a custom function changing the slice type): nillable category
 MustLS(p, nonzero) == IF "L" \in nonzero THEN "conv" ELSE IF p.nillable THEN "keep" ELSE "open"
 \* all valuations of the first four fields with nil maps, and all valuations of the maps with the others zero / non-zero
-Valuations == SUBSET {"A", "N", "P", "L"} \cup {v \cup m : v \in {{}, {"A", "N", "P", "L"}}, m \in SUBSET {"M", "NM"}}
+Valuations == SUBSET {"A", "N", "P", "L"} \cup {v \cup m : v \in {{}, {"A", "N", "P", "L"}}, m \in SUBSET {"M", "NM", "PH"}}
 Selected(p, f) == (KindOf[f] = "basic" /\ p.basic) \/ (KindOf[f] = "struct" /\ p.struct) \/ (KindOf[f] = "nillable" /\ p.nillable)
 Must(p, f, nonzero) ==
   IF f = "A" /\ p.ignoreA THEN "keep"                      \* ignored fields keep their previous values
@@ -28,7 +29,7 @@ Oper(p, f, nonzero) ==
   ELSE IF f \in nonzero THEN "conv"
   ELSE CASE KindOf[f] = "basic" -> IF p.basic THEN "keep" ELSE "conv"
          [] KindOf[f] = "struct" -> IF p.struct THEN "keep" ELSE "conv"
-         [] f = "NM" -> IF p.nillable THEN "keep" ELSE "conv" \* a helper call (or a direct assignment) is not guarded by itself
+         [] f \in {"NM", "PH"} -> IF p.nillable THEN "keep" ELSE "conv" \* a helper call (or a direct assignment) is not guarded by itself
          [] OTHER -> IF p.nillable THEN "keep"              \* explicit zero guard (skipCopy) or the builder's own nil guard
                      ELSE IF p.skip THEN "conv"             \* identical types are assigned directly: nil overwrites
                      ELSE "keep"                            \* nil pointer / slice: the builder's nil guard never assigns
